@@ -345,6 +345,15 @@ impl ConfigLockfile {
     }
 }
 
+// Trie searches match on raw bytes; a match only counts as a path prefix if it ends
+// on a component boundary, e.g. `app` is a prefix of `app/main.rs` but not of `app2/main.rs`.
+pub(crate) fn is_path_prefix(prefix: &str, path: &str) -> bool {
+    path.starts_with(prefix)
+        && (prefix.len() == path.len()
+            || prefix.ends_with('/')
+            || path.as_bytes()[prefix.len()] == b'/')
+}
+
 #[derive(Debug)]
 pub(crate) struct Index<'a> {
     pub(crate) targets: Vec<String>,
@@ -402,6 +411,7 @@ impl<'a> Index<'a> {
             // if this target is under an existing target, add it as a dep
             let mut nodes = targets_trie
                 .common_prefix_search(target_path_str)
+                .filter(|t: &String| is_path_prefix(t, target_path_str))
                 .filter(|t: &String| t != &target.path)
                 .map(|t| dag.get_node_by_label(&t).map_err(MonorailError::from))
                 .collect::<Result<Vec<usize>, MonorailError>>()?;
@@ -410,8 +420,10 @@ impl<'a> Index<'a> {
                 for s in uses {
                     let uses_path_str = s.as_str();
                     uses_builder.push(uses_path_str);
-                    let matching_targets: Vec<String> =
-                        targets_trie.common_prefix_search(uses_path_str).collect();
+                    let matching_targets: Vec<String> = targets_trie
+                        .common_prefix_search(uses_path_str)
+                        .filter(|t: &String| is_path_prefix(t, uses_path_str))
+                        .collect();
                     use2targets.entry(s).or_default().push(target_path_str);
                     // a dependency has been established between this target and some
                     // number of targets, so we update the graph
